@@ -1052,6 +1052,36 @@ func (e *Exec) loopSpec(f *frame, ord int) (invs []*Clause, unroll int) {
 func (e *Exec) loopHeader(f *frame, li *loopInfo, loops map[*ssa.BasicBlock]*loopInfo, order []*ssa.BasicBlock, h *Heap, g string) (*Heap, string) {
 	b := li.header
 	invs, _ := e.loopSpec(f, li.ord)
+	if f.spec != nil && f.top && e.quiet == 0 {
+		for _, c := range f.spec.Clauses {
+			if c.Kind != KExhaustive || c.Loop != li.ord || !e.wantClause(c) || e.clauseHit[c] {
+				continue
+			}
+			e.clauseHit[c] = true
+			var bad []string
+			for blk := range li.blocks {
+				if blk == li.header {
+					continue
+				}
+				for _, s := range blk.Succs {
+					if !li.blocks[s] {
+						bad = append(bad, e.eng.prog.Fset.Position(blk.Instrs[len(blk.Instrs)-1].Pos()).String())
+					}
+				}
+				if len(blk.Succs) == 0 {
+					bad = append(bad, e.eng.prog.Fset.Position(blk.Instrs[len(blk.Instrs)-1].Pos()).String())
+				}
+			}
+			sort.Strings(bad)
+			o := &Obligation{Name: e.funcName() + "#" + labelOr(c, fmt.Sprintf("loop%d.exhaustive", li.ord)), Func: e.funcName(), Kind: "structural", Label: c.Label, Tags: c.Tags,
+				Pos: fmt.Sprintf("%s:%d", c.File, c.Line), Structural: true, StructOK: len(bad) == 0, Guard: "true",
+				Goal: fmt.Sprintf("loop %d of %s is left only from its header (every element of the range is visited)", li.ord, f.fn.Name())}
+			if len(bad) > 0 {
+				o.StructMsg = "the loop body is left early at " + strings.Join(bad, ", ")
+			}
+			e.obls = append(e.obls, o)
+		}
+	}
 	var phis []*ssa.Phi
 	for _, in := range b.Instrs {
 		if phi, ok := in.(*ssa.Phi); ok {
